@@ -55,6 +55,11 @@ def davenportSpectrumWithDragCoef( n, delta1, kappa=0.005, normalized=True ):
     if not isinstance( delta1, numbers.Real ):
         raise ValueError( "delta1 should be a scalar" )
 
+    # any real scalar ( Python or numpy, integer types included ) is taken as a float
+    n = float( n )
+    delta1 = float( delta1 )
+    kappa = float( kappa )
+
     def rightPart( x ):
         rst = 4.0 * x * x / np.power( 1 + x * x, 4 / 3 )
         return rst
@@ -121,6 +126,12 @@ def davenportSpectrumWithRoughnessLength( n, uz, z=10, z0=0.03, normalized=True 
         raise ValueError( "n should be a scalar" )
     if not isinstance( uz, numbers.Real ):
         raise ValueError( "uz should be a scalar" )
+
+    # any real scalar ( Python or numpy, integer types included ) is taken as a float
+    n = float( n )
+    uz = float( uz )
+    z = float( z )
+    z0 = float( z0 )
 
     def rightPart( x ):
         rst = 4.0 * x * x / np.power( 1 + x * x, 4 / 3 )
@@ -189,6 +200,12 @@ def ec1Spectrum( n, uz, sigma=0.03, z=10, tcat=0, normalized=True ):
         raise ValueError( "tcat should be an integer" )
     if tcat < 0 or tcat > 4:
         raise ValueError( "tcat could only be 0, 1, 2, 3, or 4" )
+
+    # any real scalar ( Python or numpy, integer types included ) is taken as a float
+    n = float( n )
+    uz = float( uz )
+    sigma = float( sigma )
+    z = float( z )
 
     def rightPart( x ):
         rst = 6.8 * x / np.power( 1 + 10.2 * x, 5 / 3 )
@@ -268,6 +285,12 @@ def iecSpectrum( f, vhub, sigma=0.03, z=10, k=1, normalized=True ):
     if k < 1 or k > 3:
         raise ValueError( "k could only be 1, 2, or 3" )
 
+    # any real scalar ( Python or numpy, integer types included ) is taken as a float
+    f = float( f )
+    vhub = float( vhub )
+    sigma = float( sigma )
+    z = float( z )
+
     def rightPart( f ):
         rst = 4 * f / np.power( 1 + 6 * f, 5 / 3 ) 
         return rst 
@@ -328,6 +351,11 @@ def apiSpectrum( f, u0, z=10 ):
         raise ValueError( "f should be a scalar" )
     if not isinstance( u0, numbers.Real ):
         raise ValueError( "u0 should be a scalar" )
+
+    # any real scalar ( Python or numpy, integer types included ) is taken as a float
+    f = float( f )
+    u0 = float( u0 )
+    z = float( z )
 
     n = 0.468
     ftilde = 172 * f * np.power( z / 10, 2 / 3 ) * np.power( u0 / 10, -0.75 )
